@@ -426,7 +426,7 @@ fn c08_build(cfg: &[u16]) -> Built {
         (K::Topic, 4),
         (K::Privmsg, 5),
         (K::Invite, 4),
-        (K::Nick, 4),
+        (K::Nick, 9),
         (K::NewUser, 3),
         (K::CapPost, 2),
     ]);
@@ -577,7 +577,16 @@ fn c09_build(cfg: &[u16]) -> Built {
         (K::Away, 3),
         (K::CapPost, 2),
     ]);
-    enrich(Built { cfg: CfgSpec::default(), prof, prelude_users: users, setup }, &mut s)
+    // an IRC operator has no channel rank by that alone
+    let mut prof = prof;
+    prof.weights.push((K::Oper, 4));
+    let mut c9 = CfgSpec::default();
+    c9.opers.push(OperSpec { name: "op0".into(), password: "operpw0".into(), mask: None });
+    prof.oper_names.push(("op0".into(), "operpw0".into()));
+    if s.chance(30) {
+        setup.push((format!("n{}", 1 + s.pick(users - 1)), "OPER op0 operpw0".into()));
+    }
+    enrich(Built { cfg: c9, prof, prelude_users: users, setup }, &mut s)
 }
 
 fn c09_owns(d: &Disc, out: &StepOut, _t: &Trace) -> bool {
@@ -1432,6 +1441,9 @@ fn c02_build(cfg: &[u16]) -> Built {
         prof.reg_usernames.push("cfgu".into());
         prof.reg_passwords.push("userpass".into());
         prof.reg_passwords.push("srvpass".into());
+        // (the nick the configuration reserves for that user is a nick like any other)
+        prof.nicks.push("cfgnick".into());
+        prof.reg_nicks.push("cfgnick".into());
     }
     let mut setup = vec![];
     if s.chance(60) {
@@ -1572,6 +1584,8 @@ fn c03_build(cfg: &[u16]) -> Built {
         (K::Drop, 3),
     ]);
     prof.nicks = (0..4).map(|i| format!("n{}", i)).collect();
+    // (the nick the configuration reserves for the configured user is a nick like any other)
+    prof.nicks.push("cfgnick".into());
     prof.reg_passwords = pw;
     prof.reg_usernames = un;
     prof.max_conns = 4;
